@@ -449,7 +449,7 @@ fn framebuffer<const N: usize>() {
     }
 }
 
-// @harness props=C01,C08 tier=quick panic=allow
+// @harness props=C01,C08,C05 tier=quick panic=allow
 // @encodes BootInformation::framebuffer_tag FramebufferTag::{buffer_type,address,pitch,width,height,bpp,dst_len} framebuffer::Reader
 // @bound fully symbolic 64-byte region (framebuffer tag with up to 16 colour-info bytes); stored colour count symbolic over all 2^16 values
 #[cfg_attr(kani, kani::proof)]
